@@ -3,6 +3,7 @@ package props
 import (
 	"fmt"
 	"os"
+	"os/exec"
 	"path/filepath"
 	"regexp"
 	"strings"
@@ -60,11 +61,31 @@ func init() {
 			}
 			drv.Fatal("wuffs gen in the scratch root failed: %v\n%s", err, c11tail(out, 3000))
 		}
+		// gcc reads ~1.6 MB of base declarations and intrinsics headers for
+		// every emitted file; a precompiled wuffs-base.c (built with exactly the
+		// macros an emitted per-package file defines before it includes
+		// ./wuffs-base.c) makes that three times cheaper. gen/cnopch holds the
+		// same files without it: a rejection is confirmed there.
+		cdir := filepath.Join(root, "gen", "c")
+		nopch := filepath.Join(root, "gen", "cnopch")
+		os.MkdirAll(nopch, 0o755)
+		if m, _ := filepath.Glob(filepath.Join(cdir, "*.c")); len(m) > 0 {
+			for _, f := range m {
+				os.Symlink(f, filepath.Join(nopch, filepath.Base(f)))
+			}
+		}
+		pch := exec.Command("gcc", "-x", "c-header", "-w", "-DWUFFS_IMPLEMENTATION", "-DWUFFS_CONFIG__MODULES=", "-DWUFFS_NONMONOLITHIC=",
+			"wuffs-base.c", "-o", "wuffs-base.c.gch")
+		pch.Dir = cdir
+		if out, err := pch.CombinedOutput(); err != nil {
+			drv.Logf("no precompiled base header (%v: %s): gcc runs will be slower", err, c11tail(string(out), 300))
+			os.Remove(filepath.Join(cdir, "wuffs-base.c.gch"))
+		}
 		work := filepath.Join(r.Scratch, "c11work")
 		os.MkdirAll(work, 0o755)
 
 		// Logical budgets. One text needs milliseconds (the monitor itself
-		// enforces 20 s of CPU per text and 20 s / 4 GiB per wuffs-c or gcc
+		// enforces 60 s of CPU per text and 60 s / 4 GiB per wuffs-c or gcc
 		// run); a whole quick shard needs ~20 s of CPU, a thorough one ~15
 		// minutes. The child's RLIMIT_CPU is the backstop behind those.
 		cpu := uint64(900)
@@ -72,7 +93,7 @@ func init() {
 			cpu = 30000
 		}
 		o := drv.ChildOpts{CPUSec: cpu, WallSec: 7200, CrashIsViol: true, CrashSigPfx: "toolchain-crash:",
-			Env: []string{"GOMAXPROCS=2", "C11_ROOT=" + root, "C11_TOOLS=" + tools.Dir, "C11_WORK=" + work, "VERIF_REPO=" + drv.RepoDir}}
+			Env: []string{"GOMAXPROCS=2", "GOGC=400", "C11_ROOT=" + root, "C11_TOOLS=" + tools.Dir, "C11_WORK=" + work, "VERIF_REPO=" + drv.RepoDir}}
 		// Two rounds, so that a fault that kills a child (stack overflow,
 		// out of memory, CPU budget) in the deep-nesting / edge families
 		// costs nothing of the mutation families, and vice versa. Both run
@@ -112,13 +133,13 @@ func c11spec() drv.Spec {
 			"six small std files cut at every token boundary and inside every token (exhaustive for those files, see trunc_* counters); nesting deepeners (expression / type / block / const-list forms at MaxTypeExprDepth and MaxExprDepth -1, +0, +1, +2, x2, x10, synthesised and in place of an operand of a real function); " +
 			"extreme literals, identifiers, strings, comments and widths; random bytes, token soups, damaged and cut files; token-level (delete, duplicate, swap, replace by a token of another or the same kind, insert), " +
 			"line-level (delete, duplicate, move, swap) and tree-level (cut/copy/empty/unwrap a balanced bracket group, paste over another or elsewhere, swap function bodies, delete/duplicate declarations, splice functions between files) mutants of every source file, checked together with the unmutated other files of its package. " +
-			"Every text: Tokenize, Parse, Render (when cmd/wuffsfmt would render it), Check under recover() and a 20 s CPU budget; accepted packages (within a per-phase budget, all unmutated packages and verbatim edge files always): real `wuffs-c gen`, then `gcc -fsyntax-only -DWUFFS_IMPLEMENTATION` on the emitted C next to the generated base and used packages. " +
+			"Every text: Tokenize, Parse, Render (when cmd/wuffsfmt would render it), Check under recover() and a 60 s CPU budget; accepted packages (within a per-phase budget, all unmutated packages and verbatim edge files always): real `wuffs-c gen`, then `gcc -fsyntax-only -DWUFFS_IMPLEMENTATION` on the emitted C next to the generated base and used packages. " +
 			"distinct = (stage reached, error message with quoted text and numbers blanked or leg-2 outcome, mutation family)",
 		Assumptions: []string{
 			"generated texts are at most 160 KiB (largest std file: 85 KiB); the parser's recursion depth is bounded by the text size only, so much larger texts can exhaust any stack: not claimed",
 			"'the formatter' is read as cmd/wuffsfmt's do(): Render runs only on texts that Tokenize and Parse{AllowDoubleUnderscoreNames} accept",
 			"check.Check is set up as lang/generate.Do does (nil parse options, one token.Map for the package, `use` read from <scratch root>/gen/wuffs made by the tree's own `wuffs gen`)",
-			"hang = more than 20 s of process CPU time for one text in-process (getrusage), or RLIMIT_CPU 20 s for one wuffs-c / gcc run; memory = RLIMIT_AS 4 GiB; goroutine stack capped at 512 MiB; never the wall clock",
+			"hang = more than 60 s of process CPU time for one text in-process (getrusage), or RLIMIT_CPU 60 s for one wuffs-c / gcc run (the slowest text, a 2550-arm else-if chain, needs 2 s on an idle box and 7 s when the box is overloaded); memory = RLIMIT_AS 4 GiB; goroutine stack capped at 512 MiB; never the wall clock",
 			"gcc (the installed version, default -std) with -fsyntax-only -w is 'the C compiler'; emitted C identical to the already compiled unmutated package is not compiled again",
 			"only a sample of accepted mutants goes through wuffs-c and gcc in the quick tier (counters leg2_skipped_over_budget, gcc_skipped_over_budget)",
 		},
